@@ -31,12 +31,21 @@ func c14Push(c *core.Ctx) {
 		}
 	}
 	acceptNil := r.Bool()
+	acceptStacks := r.Bool()
 	var calls [][]any
 	errs := map[int]error{}
 	policy := func(x ...any) error {
 		calls = append(calls, append([]any{}, x...))
 		if len(x) != 1 {
 			return errors.New("policy called with an unexpected number of arguments")
+		}
+		if _, isStack := x[0].(stackage.Stack); isStack {
+			if acceptStacks {
+				return nil
+			}
+			e := errors.New("stack rejected")
+			errs[-2] = e
+			return e
 		}
 		if x[0] == nil {
 			if acceptNil {
@@ -55,6 +64,9 @@ func c14Push(c *core.Ctx) {
 		return e
 	}
 	s := NewStack(kind, capacity).SetPushPolicy(policy)
+	if r.Chance(1, 4) {
+		s.SetNoNesting(true) // documented to have no effect once a push policy is installed
+	}
 	m := &ListModel{Cap: capacity}
 	var wantErr error
 	var wantErrSet bool
@@ -70,9 +82,23 @@ func c14Push(c *core.Ctx) {
 		for i := range batch {
 			if r.Chance(1, 12) {
 				batch[i] = nil
+			} else if r.Chance(1, 12) {
+				batch[i] = stackage.Or().Push("in-batch")
 			} else {
 				id++
 				batch[i] = id
+			}
+		}
+		// between batches the slice is sometimes rebuilt (Remove / front Insert), which must not disturb the room arithmetic
+		if b > 0 && m.Len() > 0 && r.Chance(1, 3) {
+			if r.Bool() && m.Items[0] != nil { // (Remove cannot address a nil slot)
+				s.Remove(0)
+				m.RemoveAt(0)
+				log = append(log, "Remove(0)")
+			} else if !m.Full() {
+				s.Insert(-5, 0)
+				m.Insert(-5, 0)
+				log = append(log, "Insert(-5,0)")
 			}
 		}
 		log = append(log, fmt.Sprint(batch))
@@ -88,6 +114,8 @@ func c14Push(c *core.Ctx) {
 			ok := false
 			if v == nil {
 				ok = acceptNil
+			} else if _, isStack := v.(stackage.Stack); isStack {
+				ok = acceptStacks
 			} else {
 				ok = accept[v.(int)%mod]
 			}
@@ -127,6 +155,8 @@ func c14Push(c *core.Ctx) {
 			wantErrSet = true
 			if batch[rejectedAt] == nil {
 				wantErr = errs[-1]
+			} else if _, isStack := batch[rejectedAt].(stackage.Stack); isStack {
+				wantErr = errs[-2]
 			} else {
 				wantErr = errs[batch[rejectedAt].(int)]
 			}
